@@ -55,13 +55,19 @@ def op_family():
             lines.append('  m%d : LOGICAL := a %s (b %s c);' % (k, r1, ao))
             k += 1
             lines.append('  m%d : LOGICAL := (a %s b) %s c;' % (k, ao, r1))
+    # relational operators do not associate: every ordered pair in the three forms (the parenthesised ones must keep their grouping)
+    for r1 in REL + ['IN', 'LIKE', ':=:', ':<>:']:
+        for r2 in REL + ['IN', ':=:']:
+            for form in ('(p %s q) %s r', 'p %s (q %s r)'):
+                k += 1
+                lines.append('  m%d : LOGICAL := %s;' % (k, form % (r1, r2)))
     lines.append('  u1 : REAL := -a + b;')
     lines.append('  u2 : REAL := -(a + b);')
     lines.append('  u3 : REAL := a * (-b);')
     lines.append('  u4 : REAL := a - (-b);')
     lines.append('  u5 : REAL := -a ** 2;')
     lines.append('  u6 : REAL := (-a) ** 2;')
-    out['g_rel'] = 'SCHEMA g_rel;\nENTITY e; a : REAL; b : REAL; c : REAL;\n DERIVE\n%s\nEND_ENTITY;\nEND_SCHEMA;\n' % '\n'.join(lines)
+    out['g_rel'] = 'SCHEMA g_rel;\nENTITY e; a : REAL; b : REAL; c : REAL; p : LOGICAL; q : LOGICAL; r : LOGICAL;\n DERIVE\n%s\nEND_ENTITY;\nEND_SCHEMA;\n' % '\n'.join(lines)
     out['g_lit'] = r"""SCHEMA g_lit;
 CONSTANT
   i1 : INTEGER := 0;
@@ -152,6 +158,9 @@ END_SCHEMA;
                 if not any(vars_):
                     procs.append('FUNCTION fn%d (%s) : INTEGER;\n  RETURN (1);\nEND_FUNCTION;' % (k, ps))
     # the same parameter types written as one identifier list (a, b : T)
+    procs.append('PROCEDURE pr0;\nEND_PROCEDURE;')
+    procs.append('PROCEDURE pr00;\n  LOCAL\n    x : tt;\n  END_LOCAL;\n  x := 1.5;\nEND_PROCEDURE;')
+    procs.append('FUNCTION fn0 : INTEGER;\n  RETURN (1);\nEND_FUNCTION;')
     procs.append('PROCEDURE prl1 (a, b : tt; VAR c, d : tt; e : tt);\n  c := a;\nEND_PROCEDURE;')
     procs.append('PROCEDURE prl2 (VAR a : tt; b : tt; VAR c : tt);\n  a := b;\nEND_PROCEDURE;')
     out['g_params'] = 'SCHEMA g_params;\nTYPE tt = REAL; END_TYPE;\nTYPE uu = REAL; END_TYPE;\n' + '\n'.join(procs) + '\nEND_SCHEMA;\n'
